@@ -645,16 +645,18 @@ func ruleMergeQueued(r *Report) {
 			continue
 		}
 		ok := false
-		allInstrs(fn, func(ins ssa.Instruction) {
+		deepVisitE(fn, func(ins, _ ssa.Instruction, env *venv) {
 			if cc, _, _ := callCommon(ins); cc != nil {
 				if sc := cc.StaticCallee(); sc != nil && sc.Name() == "Merge" {
-					if rn2 := recvNamed(sc); rn2 != nil && strings.HasPrefix(rn2.Obj().Name(), "rw") && sameExpr(cc.Args[1], fn.Params[2]) {
+					if rn2 := recvNamed(sc); rn2 != nil && strings.HasPrefix(rn2.Obj().Name(), "rw") && sameE(cc.Args[1], env, fn.Params[2], nil, 0) {
 						ok = true
 					}
 				}
-				// … or queues it itself: Buffer.Put<K>(commit.Merge, cursor, delta)
-				if isBufferPut(calleeShort(cc)) && len(cc.Args) >= 4 {
-					if k, isC := constInt(cc.Args[1]); isC && k == opMerge && len(fn.Params) > 2 && sameExpr(cc.Args[3], fn.Params[2]) {
+				// … or queues it itself: Buffer.Put<K>(commit.Merge, cursor, delta), possibly through a
+				// shared helper that is handed the operation and the Put<K> to use
+				if isBufferPut(calleeNameE(cc, env)) && len(cc.Args) >= 4 && len(fn.Params) > 2 {
+					opv, _ := normE(cc.Args[len(cc.Args)-3], env, false)
+					if k, isC := constInt(opv); isC && k == opMerge && sameE(cc.Args[len(cc.Args)-1], env, fn.Params[2], nil, 0) {
 						ok = true
 					}
 				}
@@ -938,10 +940,10 @@ func ruleSetQueued(r *Report) {
 					return n == ssa.Value(fn.Params[2]) || z == ssa.Value(fn.Params[2])
 				}, 6)
 			}
-			short := calleeShort(cc)
+			short := calleeNameE(cc, env)
 			switch {
 			case isBufferPut(short) || short == "(*commit.Buffer).PutAny" || short == "(*commit.Buffer).PutBool":
-				for _, a := range cc.Args[1:] {
+				for _, a := range cc.Args {
 					if fromValue(a) {
 						ok = true
 					}
